@@ -3,12 +3,11 @@ import GoldModel.Lemmas.Lint
 The stateful analyzers against declarative descriptions of what they report for ONE method
 (an action list without `enter`):
 
-* `trackSpec` — the tracked declarations no later action hits, names compared through `norm`;
-  `tracker_spec`: the tracker computes exactly this on well-declared action lists
-  (`distinctKeys`: no name declared twice; `declBeforeHit`: no hit precedes the declaration of its name);
+* `tracker_spec` — the tracker computes exactly `trackSpec` on well-declared action lists;
 * `ih_spec` — the inherited checker reports the method iff its name is listed and no action satisfies it;
 * `tracker_rename` — renaming all names by a function that respects `norm` on the names that
-  occur renames the reports and changes nothing else.
+  occur renames the reports and changes nothing else;
+* `tracker_congr` — readings that agree up to hits of undeclared names give the same reports.
 -/
 namespace Gold.Lint
 open Gold
@@ -18,55 +17,29 @@ structure Flag.Lawful {F : Type} (fl : Flag F) : Prop where
   bump : ∀ f, fl.isZero (fl.bump f) = false
 
 theorem countFlag_lawful : countFlag.Lawful := ⟨rfl, fun f => by simp [countFlag]⟩
+
 theorem boolFlag_lawful : boolFlag.Lawful := ⟨rfl, fun f => by simp [boolFlag]⟩
 
 /-! ### declarative description of the tracker -/
 
-def declOf : TAct → Option (String × Range)
-  | .decl n r => some (n, r)
-  | _ => none
-
-/-- the declarations of a method, in order -/
-def decls (as : List TAct) : List (String × Range) := as.filterMap declOf
-
-def isHit (norm : String → String) (k : String) : TAct → Bool
-  | .hit n => norm n == k
-  | _ => false
-
-/-- some action of the method hits the name with key `k` -/
-def hitIn (norm : String → String) (as : List TAct) (k : String) : Bool := as.any (isHit norm k)
-
-/-- what the property demands: every declaration that no action of the method hits -/
-def trackSpec (norm : String → String) (as : List TAct) : List TOut :=
-  (decls as).filterMap (fun d => if hitIn norm as (norm d.1) then none else some (.unhit (norm d.1) d.1 d.2))
-
-def distinctKeys : List String → Bool
-  | [] => true
-  | k :: ks => !ks.contains k && distinctKeys ks
-
-/-- no hit of a name precedes a declaration of that name -/
-def declBeforeHit (norm : String → String) : List TAct → Bool
-  | [] => true
-  | .hit n :: rest => !((decls rest).any (fun d => norm d.1 == norm n)) && declBeforeHit norm rest
-  | _ :: rest => declBeforeHit norm rest
-
-def noEnter (as : List TAct) : Bool := as.all (fun a => a != .enter)
-
-/-- declared once, and before any use -/
-def wellDeclared (norm : String → String) (as : List TAct) : Bool :=
-  distinctKeys ((decls as).map (fun d => norm d.1)) && declBeforeHit norm as
-
 @[simp] theorem decls_other (rest : List TAct) : decls (.other :: rest) = decls rest := rfl
+
 @[simp] theorem decls_hit (n : String) (rest : List TAct) : decls (.hit n :: rest) = decls rest := rfl
+
 @[simp] theorem decls_enter (rest : List TAct) : decls (.enter :: rest) = decls rest := rfl
+
 @[simp] theorem decls_decl (n : String) (r : Range) (rest : List TAct) : decls (.decl n r :: rest) = (n, r) :: decls rest := rfl
+
 @[simp] theorem hitIn_other (norm : String → String) (rest : List TAct) (k : String) : hitIn norm (.other :: rest) k = hitIn norm rest k := by
   simp [hitIn, isHit]
+
 @[simp] theorem hitIn_decl (norm : String → String) (n : String) (r : Range) (rest : List TAct) (k : String) :
     hitIn norm (.decl n r :: rest) k = hitIn norm rest k := by
   simp [hitIn, isHit]
+
 @[simp] theorem hitIn_enter (norm : String → String) (rest : List TAct) (k : String) : hitIn norm (.enter :: rest) k = hitIn norm rest k := by
   simp [hitIn, isHit]
+
 theorem hitIn_hit (norm : String → String) (n : String) (rest : List TAct) (k : String) :
     hitIn norm (.hit n :: rest) k = (norm n == k || hitIn norm rest k) := by
   simp [hitIn, isHit]
@@ -452,19 +425,6 @@ theorem tracker_rename {F : Type} (fl : Flag F) (c : TCfg) (norm ρ : String →
 
 /-! ### hits of names the method does not declare are irrelevant -/
 
-/-- an action that cannot concern a declaration whose key is in `K` -/
-def foreign (norm : String → String) (K : List String) : TAct → Bool
-  | .hit n => !K.contains (norm n)
-  | .other => true
-  | _ => false
-
-def eraseForeign (norm : String → String) (K : List String) (a : TAct) : TAct :=
-  if foreign norm K a then .other else a
-
-/-- two readings of a visit agree, up to hits of names that are not declared (keys outside `K`) -/
-def agreeUpTo (norm : String → String) (K : List String) (a b : TAct) : Bool :=
-  a == b || (foreign norm K a && foreign norm K b)
-
 theorem mapBump_foreign {F : Type} (fl : Flag F) (k : String) (s : List (String × TEntry F)) (h : ∀ p ∈ s, p.1 ≠ k) :
     mapBump fl k s = s := by
   unfold mapBump
@@ -569,5 +529,53 @@ theorem tracker_congr {F : Type} {α : Type} (fl : Flag F) (c : TCfg) (norm : St
     exact erase_eq_of_agree norm K (h e he)
   simp only [Machine.run, tracker] at e1 e2 ⊢
   rw [← e1, ← e2, e3]
+
+theorem filterMap_ite_map {α β : Type} (p : α → Bool) (f : α → β) (l : List α) :
+    l.filterMap (fun d => if p d then none else some (f d)) = (l.filter (fun d => !p d)).map f := by
+  induction l with
+  | nil => rfl
+  | cons x rest ih => cases h : p x <;> simp [h, ih]
+
+/-! ### visits before the first method produce nothing in the stateful analyzers -/
+
+def quiet : TAct → Bool
+  | .hit _ => true
+  | .other => true
+  | _ => false
+
+theorem tracker_quiet {F : Type} (fl : Flag F) (c : TCfg) (norm : String → String) (as : List TAct)
+    (h : ∀ a ∈ as, quiet a = true) : (tracker fl c norm).run as = [] := by
+  induction as with
+  | nil => simp [Machine.run, Machine.runFrom, tracker, report]
+  | cons a rest ih =>
+    have hr := ih (fun x hx => h x (List.mem_cons_of_mem _ hx))
+    have ha := h a List.mem_cons_self
+    simp only [Machine.run, tracker] at hr ⊢
+    cases a with
+    | enter => simp [quiet] at ha
+    | decl n r => simp [quiet] at ha
+    | hit n => simpa [Machine.runFrom, trackerStep, mapBump] using hr
+    | other => simpa [Machine.runFrom, trackerStep] using hr
+
+theorem ih_quiet (cfg : Cfg) (norm : String → String) (as : List IAct) (h : noEnterI as = true) (b : Bool) :
+    (ihMachine cfg norm).runFrom ⟨none, b⟩ as = [] := by
+  induction as generalizing b with
+  | nil => simp [Machine.runFrom, ihMachine, ihCheck]
+  | cons a rest ih =>
+    have hne' : noEnterI rest = true := by
+      simp only [noEnterI, List.all_cons, Bool.and_eq_true] at h ⊢; exact h.2
+    cases a with
+    | enter m q => simp [noEnterI] at h
+    | pass => have := ih hne' true; simp only [ihMachine] at this; simp [Machine.runFrom, ihMachine, ihStep, this]
+    | other => have := ih hne' b; simp only [ihMachine] at this; simp [Machine.runFrom, ihMachine, ihStep, this]
+    | inh c => have := ih hne' b; simp only [ihMachine] at this; simp [Machine.runFrom, ihMachine, ihStep, this]
+
+theorem perm_flatMap_congr {α β : Type} (l : List α) (f g : α → List β) (h : ∀ x ∈ l, (f x).Perm (g x)) :
+    (l.flatMap f).Perm (l.flatMap g) := by
+  induction l with
+  | nil => simp
+  | cons a rest ih =>
+    simp only [List.flatMap_cons]
+    exact List.Perm.append (h a List.mem_cons_self) (ih (fun x hx => h x (List.mem_cons_of_mem _ hx)))
 
 end Gold.Lint
